@@ -60,7 +60,7 @@ class C13(Check):
         'invariant_after_op': 'for each operation: the output state has exactly K clusters and cluster k lists exactly the sorted points labelled k',
         'input_intact_after_op': 'the state given to the operation keeps labels, membership and fitted statistics (identity and value)',
         'first_input_intact_after_two_ops': 'after op2(op1(s)) the original s is still intact',
-        'deep_copy_shares_nothing_mutable': 'object graphs of copy and source share no list / array buffer / container (scalar and array-valued hyper-parameters)',
+        'deep_copy_shares_nothing_mutable': 'object graphs of copy and source share no list / array buffer / container (scalar and array-valued hyper-parameters), and the copy equals its source field by field',
         'deep_copy_mutation_isolated': 'writing every mutable leaf of the copy leaves the source unchanged',
         'setter_rederives_membership': 'assigning an equal labelling is a no-op; any other (labels in -1..K-1, -1 = not labelled) re-derives all K member lists, including emptied clusters; unlabelled points belong to no cluster',
     }
@@ -109,7 +109,7 @@ class C13(Check):
             lam = stubs.sym_symmetric(c, 'lam', n)
             beta = stubs.sym_array(c, 'beta', (P,), lo=0)
         else:
-            lam, beta = 0.1, 1.0
+            lam, beta = 0.125, 1.0
         args = states.user_args(Rp, K, lam=lam, beta=beta, m=1, biased=True)
         labels = [c.int('l_%d' % i, 0, K - 1) for i in range(P)]
         st = states.fitted_state(Rp, c, K, n, labels, data, args, prefix=prefix)
@@ -213,8 +213,17 @@ class C13(Check):
         b = reachable_mutables(cp, Rp, path='copy')
         shared = sorted(a[i] for i in set(a) & set(b))
         c.notes['shared'] = shared
-        c.prove('deep_copy_shares_nothing_mutable', not shared and cp is not st and states.invariant(cp, K, P),
-                detail={'shared': shared})
+        a0, a1 = st.arguments, cp.arguments
+        equal = [stubs.unchanged(stubs.snapshot(getattr(a0, f)), getattr(a1, f)) for f in
+                 ('sparsity_weight', 'label_switching_cost', 'min_meaningful_covariance')] + \
+                [getattr(a0, f) == getattr(a1, f) for f in ('iteration_limit', 'min_cluster_size', 'num_clusters',
+                                                             'num_processors', 'window_size', 'biased_covariance')] + \
+                [states.labels_of(cp) == states.labels_of(st)]
+        for k in range(K):
+            for fld in states.FIELDS:
+                equal.append(stubs.unchanged(stubs.snapshot(getattr(st.clusters[k], fld)), getattr(cp.clusters[k], fld)))
+        c.prove('deep_copy_shares_nothing_mutable',
+                conj([not shared, cp is not st, states.invariant(cp, K, P)] + equal), detail={'shared': shared})
         # mutate every mutable leaf of the copy
         fz = states.freeze(st)
         lam_snap = stubs.snapshot(st.arguments.sparsity_weight)
